@@ -9,7 +9,7 @@ PROP = {
     "modelrun": {"name": "c23", "extracted": ["c23_model"], "driver": "ocaml/c23/c23_run.ml"},
     "tiers": {"quick": {"cases": 2500}, "thorough": {"cases": 60000}},
     "search_cases": 8000,
-    "rule": "cases = 1-2 session configurations (iBGP/eBGP, 2- and 4-octet AS, hold times 0/3/30/90/180, families, add-path, "
+    "rule": "deterministic part first: ExitProduct = 4 configurations x {OpenSent, OpenConfirm, Established} x connection {healthy, writes fail, peer closed} x 42 events (every admin code, connection event, timer, message class), each followed by a restart; then cases = 1-2 session configurations (iBGP/eBGP, 2- and 4-octet AS, hold times 0/3/30/90/180, families, add-path, "
             "roles, route reflection, import policy accept/reject/rewrite, outgoing or accepted-connection FSM) + up to ~40 "
             "events (admin start/stop/cease, TCP up with working or broken connection, hold poll expired/not, keepalive and "
             "connect-retry timer, write failure, peer transmissions: KEEPALIVE, valid and mutated OPEN, UPDATE, valid and "
